@@ -306,7 +306,7 @@ def unit_generated(ctx, n):
 
 def units(tier):
     q = tier == 'quick'
-    return [{'name': 'gen-%d' % i, 'fn': 'unit_generated', 'kwargs': {'n': 120 if q else 1500}, 'threads': 16} for i in range(12)]
+    return [{'name': 'gen-%d' % i, 'fn': 'unit_generated', 'kwargs': {'n': 120 if q else 5000}, 'threads': 16} for i in range(12)]
 
 
 def selftest():
